@@ -5,6 +5,9 @@
 import Sbepp.Drive.Common
 import Sbepp.Drive.C15
 import Sbepp.Drive.C14
+import Sbepp.Drive.C12
+import Sbepp.Drive.C13
+import Sbepp.Drive.C16
 import Sbepp.Drive.Wire
 
 open Sbepp.Drive
@@ -16,6 +19,7 @@ def dispatch (line : String) : String :=
   if line.startsWith "layout " then Wire.layout (payloadOf line "layout")
   else if line.startsWith "decode " then Wire.decode (payloadOf line "decode")
   else if line.startsWith "encode " then Wire.encode (payloadOf line "encode")
+  else if line.startsWith "visit " then Wire.visit (payloadOf line "visit")
   else
   match (line.trimAscii.toString.splitOn " ").filter (· ≠ "") with
   | [] => ""
@@ -23,6 +27,14 @@ def dispatch (line : String) : String :=
     match cmd with
     | "bits" => C15.handle args
     | "sarr" => C14.handle args
+    | "grp" => C12.handle args
+    | "dyn" => C13.handle args
+    | "opt" => C16.handle args
+    | "opttab" => C16.handleTab args
+    | "optlit" => C16.handleLit args
+    | "grpsize" => C12.handleSize args
+    | "nest" => C12.handleNest args
+    | "resize" => C12.handleResize args
     | _ => "bad-op"
 
 partial def loop (h : IO.FS.Stream) (out : IO.FS.Stream) : IO Unit := do
